@@ -19,6 +19,38 @@ def sh(cmd, cwd=None, env=None, timeout=3600):
     return p.returncode, p.stdout + p.stderr
 
 
+PER_MODULE = ('C01', 'C02', 'C03', 'C04', 'C05', 'C12', 'C15', 'C17')
+
+
+def plan_filter(diff):
+    """For the bookkeeping sweep: when a change only touches format modules, the per-module checks are run on the work
+    items of those modules and of the modules that import them ('' = no restriction)."""
+    import re
+    files = re.findall(r'^diff --git a/(\S+) b/', open(diff, encoding='utf-8').read(), re.M)
+    names = set()
+    for f in files:
+        m = re.match(r'^stdnum/((?:[a-z_0-9]+/)?[a-z_0-9]+)\.py$', f)
+        if f.startswith('tests/'):
+            continue
+        if not m or m.group(1) in ('util', 'numdb', 'exceptions', '__init__') or m.group(1).endswith('__init__'):
+            return ''
+        names.add('stdnum.' + m.group(1).replace('/', '.'))
+    if not names:
+        return ''
+    # modules that import a touched module (one level)
+    rc, o = sh("grep -rlE 'from stdnum(\\.[a-z_0-9]+)* import|import stdnum' /repo/stdnum --include=*.py")
+    for path in o.split():
+        try:
+            txt = open(path, encoding='utf-8').read()
+        except OSError:
+            continue
+        for nm in list(names):
+            pkg, _, mod = nm.rpartition('.')
+            if re.search(r'from %s import [^\n]*\b%s\b' % (re.escape(pkg), re.escape(mod)), txt) or ('import ' + nm) in txt:
+                names.add('stdnum.' + path[len('/repo/stdnum/'):-3].replace('/', '.'))
+    return ','.join(sorted(names))
+
+
 def main(a):
     fast = False
     old = {}
@@ -83,9 +115,12 @@ def main(a):
         meta['demo_output'] = o1.strip()[-600:]
         meta['confirmed'] = bool(meta['tests_pass'] and rc1 != 0 and rc0 == 0)
         det = {}
+        flt = plan_filter(diff) if fast else ''
         for c in checks:
             cenv = dict(os.environ, VP_REPO_ROOT=wt, VP_CONFIRM='2', VP_EVIDENCE_DIR=wt + '.evidence', VP_REPLAY_DIR=wt + '.replays')
             cenv.pop('PYTHONPATH', None)
+            if flt and c.split(':')[0] in PER_MODULE:
+                cenv['VP_PLAN_FILTER'] = flt
             tier = 'quick'
             if ':' in c:
                 c, tier = c.split(':')
